@@ -521,3 +521,21 @@ Proof.
   pose proof (inv_safe _ (barrier_reachable_inv thr rems sched H)) as S.
   rewrite brun_thr in S. exact S.
 Qed.
+
+(* mutual exclusion inside the model: at most one thread is between lock and unlock *)
+Theorem barrier_mutex_exclusive thr rems sched :
+  0 < thr < two32 -> cnt holds (b_ths (brun (binit thr rems) sched)) <= 1.
+Proof.
+  intros H. pose proof (i_hold _ (barrier_reachable_inv thr rems sched H)) as E.
+  destruct (is_free _) in E; lia.
+Qed.
+
+(* a reachable, non-trivial run: 3 threads, count 3, two rounds each, run round-robin
+   to completion: 6 calls, 6 returns, exactly 2 of them non-zero *)
+Definition rr (n reps : nat) : list choice :=
+  concat (repeat (map (fun t => mkChoice t 0) (seq 0 n)) reps).
+
+Example barrier_example :
+  let s := brun (binit 3 [2; 2; 2]%nat) (rr 3 20) in
+  bverdict s = 0 /\ calls (b_trace s) = 6 /\ rets (b_trace s) = 6 /\ nzrets (b_trace s) = 2.
+Proof. vm_compute. auto. Qed.
